@@ -54,12 +54,16 @@ structure Frame where
   trackCpu : Bool
   trackMem : Bool
   trackTime : Bool
+  /-- `inheritedCpu` / `inheritedMem` (commit 52f8e49): the hard limit is merely what the parent had left
+  when this context was pushed; part of the state, not observable through the public API -/
+  inhCpu : Bool
+  inhMem : Bool
   deriving DecidableEq, Repr, Inhabited
 
 /-- the zero value of runtimeContextManager: what `rt.New` starts with -/
 def Frame.root : Frame :=
   { hard := Res.zero, soft := Res.zero, used := Res.zero, flags := 0#16, status := StatusLive,
-    stop := 0#8, trackCpu := false, trackMem := false, trackTime := false }
+    stop := 0#8, trackCpu := false, trackMem := false, trackTime := false, inhCpu := false, inhMem := false }
 
 /-- non-empty stack: the active context and its parents, nearest first -/
 structure St where
@@ -142,7 +146,9 @@ def Frame.child (f : Frame) (d : CtxDef) : Frame :=
     stop := f.stop,
     trackTime := trackTime,
     trackCpu := BitVec.ult 0#64 hard.Cpu || BitVec.ult 0#64 soft.Cpu || trackTime,
-    trackMem := BitVec.ult 0#64 hard.Memory || BitVec.ult 0#64 soft.Memory }
+    trackMem := BitVec.ult 0#64 hard.Memory || BitVec.ult 0#64 soft.Memory,
+    inhCpu := BitVec.ult 0#64 f.hard.Cpu && !(smallerLimit d.hard.Cpu (f.hard.Remove f.used).Cpu),
+    inhMem := BitVec.ult 0#64 f.hard.Memory && !(smallerLimit d.hard.Memory (f.hard.Remove f.used).Memory) }
 
 def push (s : St) (d : CtxDef) : St := ⟨s.cur.child d, s.cur :: s.parents⟩
 
@@ -204,17 +210,12 @@ def popCause (p c : Frame) : TermRes :=
   | _ => killCause p (.reqCpu c.used.Cpu)
 
 /-- `propagateTermination(child, e)` called in the parent `m` after the child was popped and
-charged: if the limit the child ran into is exactly what `m` had left when the child was pushed,
-`m` is terminated too (no-op unless `m` is live). uint64 arithmetic as in the Go code. -/
+charged (commit 52f8e49): if the limit the child ran into was inherited from `m` (flag recorded
+when the child was pushed), `m` is terminated too (no-op unless `m` is live). -/
 def Frame.propagate (m child : Frame) : TermRes → Frame × Outcome
   | .none => (m, .ok)
-  | .cpu =>
-    if BitVec.ult 0#64 m.hard.Cpu && child.hard.Cpu == m.hard.Cpu - (m.used.Cpu - child.used.Cpu) && m.live
-    then (m.kill, .terminated) else (m, .ok)
-  | .mem =>
-    if BitVec.ult 0#64 m.hard.Memory && child.hard.Memory == m.hard.Memory - (m.used.Memory - child.used.Memory)
-      && m.live
-    then (m.kill, .terminated) else (m, .ok)
+  | .cpu => if child.inhCpu && m.live then (m.kill, .terminated) else (m, .ok)
+  | .mem => if child.inhMem && m.live then (m.kill, .terminated) else (m, .ok)
 
 def step (s : St) : Op → St × Outcome
   | .push d => (push s d, .ok)
